@@ -106,4 +106,29 @@ def step {α : Type} (o : Ops α) (w : EW α) (now : Nat) : EOp → EW α
   | .finish => { w with finished := true, pos := w.len.getD w.pos }
   | .setLen l => tick o { w with len := l } now
 
+/-! ### The derived getters `ProgressState::{eta, duration, elapsed}` (generic: `isZero` is `sps == 0.0`, `toDur` is
+`secs_to_duration`, both supplied by the instance; the driver runs them on `Float`) -/
+
+/-- `Duration::MAX` in ns: (2^64 − 1) s + 999_999_999 ns -/
+def durMax : Nat := (2 ^ 64 - 1) * 1000000000 + 999999999
+
+/-- `Duration::saturating_add` -/
+def durSatAdd (a b : Nat) : Nat := min (a + b) durMax
+
+/-- `ProgressState::elapsed` (ns) -/
+def elapsedOf {α : Type} (w : EW α) (now : Nat) : Nat := now - w.started
+
+/-- `ProgressState::eta` (ns) -/
+def etaOf {α : Type} (o : Ops α) (isZero : α → Bool) (toDur : α → Nat) (w : EW α) (now : Nat) : Nat :=
+  if w.finished then 0 else
+  match w.len with
+  | none => 0
+  | some len =>
+    let sps := stepsPerSecond o w.est now
+    if isZero sps then 0 else toDur (o.div (o.ofNat (len - w.pos)) sps)
+
+/-- `ProgressState::duration` (ns) -/
+def durationOf {α : Type} (o : Ops α) (isZero : α → Bool) (toDur : α → Nat) (w : EW α) (now : Nat) : Nat :=
+  if w.len.isNone || w.finished then 0 else durSatAdd (elapsedOf w now) (etaOf o isZero toDur w now)
+
 end IndicatifModel.Estimator
